@@ -97,7 +97,11 @@ RtTotal == LET RECURSIVE Sum(_) Sum(j) == IF j = 0 THEN 0 ELSE rt[j].sz + Sum(j 
 Room(extra) == Total + RtTotal + extra <= MaxNodes
 Has(k) == Len(stk) >= k
 
-Push(en) == stk' = Append(stk, en) /\ UNCHANGED <<rt, fin>>
+\* a stack of k trees needs k - 1 reductions; one constructor node removes at most MaxAr - 1 entries,
+\* so a push that could never be folded into one tree within the budget is not offered (prunes dead ends only)
+MaxAr == IF "For" \in Ctrl \/ "Cond2" \in Ctrl THEN 4 ELSE 3
+Push(en) == /\ Len(stk) <= (MaxAr - 1) * (MaxNodes - Total - RtTotal - en.sz)
+            /\ stk' = Append(stk, en) /\ UNCHANGED <<rt, fin>>
 Replace(k, en) == stk' = Append(Pop(k), en) /\ UNCHANGED <<rt, fin>>
 
 VarT(v) == IF v <= NVarsU THEN "u" ELSE "b"
